@@ -144,3 +144,52 @@ Proof.
   destruct (IT t Ht) as [_ It]. unfold inv_thread in It. fold g in It.
   destruct (ts_phase (thread g t)); [exact It|apply It|apply It].
 Qed.
+
+(* ------------------------------------------------------------------ histories *)
+Definition is_plain (st : bstep) : bool :=
+  match st with BCreate _ _ | BWrite _ _ _ | BErase _ | BDeleteMany _ => true | _ => false end.
+
+(* an ordinary write through the hub, outside any doInTransaction: durable at once -- the committed table becomes the
+   table with that write, nothing else changes -- unless a transaction holds the write lock: then it raises and changes nothing *)
+Lemma plain_write_proof :
+  forall (g : gst) (t n : nat) (st : bstep),
+    resolve g t = Some (CDb n) -> is_plain st = true ->
+    (g_lock g = None ->
+       plain_step g t st = (with_gcommitted g (body_table (g_committed g) [st]), body_result (g_committed g) [st])) /\
+    (forall t', g_lock g = Some t' -> plain_step g t st = (g, Raised XLocked 0)).
+Proof.
+  intros g t n st Hr Hp. unfold plain_step. rewrite Hr. split.
+  - intros Hl. rewrite Hl. unfold body_table, body_result. destruct st; cbn in Hp; try discriminate; cbn [body_run fst snd].
+    + destruct (tbl_insert [a; b] (g_committed g)) as [id v']. reflexivity.
+    + reflexivity.
+    + reflexivity.
+    + reflexivity.
+  - intros t' Hl. rewrite Hl. reflexivity.
+Qed.
+
+(* a call in a history is the call of the one-call theorems: started from the state between calls ... *)
+Lemma history_call_proof :
+  forall (h : hst) (t : nat) (r : result) (x : option txinfo) (body : list bstep) (rest : list item),
+    ts_phase (thread (h_g h) t) = PDone r x -> nth t (h_todo h) [] = ICall body :: rest ->
+    h_g (htick h t) = tick (set_thread (h_g h) t (ts_slot (thread (h_g h) t)) (PIdle body)) t.
+Proof. intros h t r x body rest Hp Ht. unfold htick. rewrite Hp, Ht. reflexivity. Qed.
+
+(* ... and continued by the same steps; the thread's list of things to do is touched only between calls *)
+Lemma history_run_proof :
+  forall (h : hst) (t : nat) old is_thr view cached rest k created,
+    ts_phase (thread (h_g h) t) = PRun old is_thr view cached rest k created ->
+    htick h t = {| h_g := tick (h_g h) t; h_todo := h_todo h; h_plain := h_plain h |}.
+Proof. intros h t old is_thr view cached rest k created Hp. unfold htick. rewrite Hp. reflexivity. Qed.
+
+Lemma history_plain_proof :
+  forall (h : hst) (t : nat) (r : result) (x : option txinfo) (st : bstep) (rest : list item),
+    ts_phase (thread (h_g h) t) = PDone r x -> nth t (h_todo h) [] = IPlain st :: rest ->
+    h_g (htick h t) = fst (plain_step (h_g h) t st) /\
+    nth t (h_plain (htick h t)) None = (if Nat.ltb t (length (h_plain h)) then Some (snd (plain_step (h_g h) t st)) else None).
+Proof.
+  intros h t r x st rest Hp Ht. unfold htick. rewrite Hp, Ht. destruct (plain_step (h_g h) t st) as [g1 r1]. cbn [h_g h_plain fst snd].
+  split; [reflexivity|].
+  destruct (Nat.ltb t (length (h_plain h))) eqn:L.
+  - apply Nat.ltb_lt in L. apply nth_set_nth_same. exact L.
+  - apply Nat.ltb_ge in L. rewrite set_nth_oob by exact L. apply nth_overflow. exact L.
+Qed.
